@@ -226,6 +226,28 @@ theorem overlay_history_query (base : List Feature) (hb : (base.map (·.id)).Nod
   obtain ⟨L, h1, h2, h3⟩ := overlay_find_spec o hinv.1 hinv.2.2.2 id typed
   exact ⟨o, L, ho, h1, h2, h3⟩
 
+/-- **overlay_index_inv_all_histories.** Histories that also contain the tag edits which copy a base-only
+feature into the overlay (`AddTag` / `RemoveTag` of a searchable tag: copy, `m.references.AddFeature`):
+after ANY history of `AddFeature`, `Snapshot` and such copy-ups the overlay's index is the inverse of
+the overlay's features (one entry per target and source), and every `FindReferences` terminates
+without repetitions. (The copy discipline `UpClosed` — hence `overlay_history_query` — does NOT
+survive a copy-up: the copy's referrers stay in the base; see the example below. That the query is
+nevertheless exact there — the copy has the base version's references — is tied by the
+correspondence run, not proved.) -/
+theorem overlay_index_inv_all_histories (base : List Feature) (hb : (base.map (·.id)).Nodup) (ops : List TOp) :
+    ∃ o, runTOps ⟨base, [], []⟩ ops = some o ∧
+      (∀ t s, s ∈ (entries o.ix t).map (·.src) ↔ Refers o.feats t s) ∧
+      (∀ t, ((entries o.ix t).map (·.src)).Nodup) ∧
+      ∀ id typed, ∃ L, o.find id typed = some L ∧ L.Nodup := by
+  obtain ⟨o, ho, hi, _, _⟩ := runTOps_index ops ⟨base, [], []⟩ Inv_empty (by simp [Uniq]) hb
+  exact ⟨o, ho, hi.1, hi.2, fun id typed => find_terminates o id typed⟩
+
+/-- a copy-up breaks `UpClosed` (area 20 stays in the base while its path 10 is copied), yet the query is
+still exact on this state -/
+example : let o : Overlay := (⟨[⟨p1, []⟩, ⟨w10, [p1]⟩, ⟨(2, 20), [w10]⟩], [], []⟩ : Overlay).copyUp w10
+    ¬ UpClosed o ∧ o.find p1 [] = some [(2, 20), w10] ∧ referrers o.merged p1 = some [w10, (2, 20)] := by
+  refine ⟨by unfold UpClosed; decide, by decide, by decide⟩
+
 /-- non-vacuity: a base path replaced in the overlay, then a snapshot, then an area over it -/
 example : (runOOps ⟨[⟨p1, []⟩, ⟨p2, []⟩, ⟨p3, []⟩, ⟨w10, [p1, p2, p3, p1]⟩], [], []⟩
     [.add ⟨w10, [p2, p3, p1, p2]⟩, .snap, .add ⟨(2, 20), [w10]⟩]).isSome = true := by decide
